@@ -795,6 +795,26 @@ pub fn worker(prop: &str, shard: usize, nshards: usize, seed: u64, tier: &str, o
         }
         walk.out.end();
     }
+    // --- pin scenarios: random positions built around a pinned piece
+    {
+        let n = if tier == "thorough" { 1_500_000 } else { 120_000 };
+        walk.out.begin(&json!({"kind":"pin-scenarios","shard":shard,"count":n}));
+        let mut prng = Rng::new(seed, 0x9140 + shard as u64);
+        let mut made = 0u64;
+        for i in 0..n {
+            let Some(p) = gen::pin_scenario(&mut prng) else { continue };
+            made += 1;
+            let f6 = fen::render6(&p, 0, 1);
+            if let Ok(mut g) = eng::load(&f6) {
+                let case = || json!({"kind":"pos","family":"pin-scenario","load_fen":f6});
+                let origin = Origin { case: &case, route: "enum", src: (200u64 << 40) | ((shard as u64) << 24) | i as u64 };
+                walk.check_position(&mut g, &p, &origin);
+            }
+        }
+        walk.out.add("pin_scenarios", made);
+        walk.out.end();
+    }
+
     // --- G-tree: every move from corpus roots, to depth 2 (quick) / 3 (thorough)
     let depth = if tier == "thorough" { 3 } else { 2 };
     for (ri, root_fen) in corpus.iter().enumerate() {
@@ -1093,7 +1113,7 @@ fn summarize(prop: &str, chk: &mut Check, agg: &Agg) {
         .map(|(k, _)| k.trim_start_matches("family_").trim_end_matches("_exhaustive_shards").to_string())
         .collect();
     chk.put("families_enumerated_completely", json!(exhaustive));
-    chk.rule = "positions = every position of oracle-driven random games (9 move policies, up to 398 plies, from the start position and ~85 corpus positions; engine advanced by push_history, push or a mix; every few plies the position is also loaded from text in both en-passant conventions) plus members of enumerated families (K+X v K complete, castling-under-attack complete, en-passant discoveries and promotion targets complete in thorough / strided in quick). distinct = by position key (board, side, rights, ep file) merged across workers; non-trivial = the position has at least one of: check, double check, pin, en passant available, castling right for the mover, promotion available, no legal move.".into();
+    chk.rule = "positions = every position of oracle-driven random games (9 move policies, up to 398 plies, from the start position and ~85 corpus positions; engine advanced by push_history, push or a mix; every few plies the position is also loaded from text in both en-passant conventions) plus members of enumerated families (K+X v K complete, castling-under-attack complete, en-passant discoveries and promotion targets complete in thorough / strided in quick), random positions built around a pinned piece (incl. the mirrored-diagonal geometry) and every node of depth-2/3 trees from the corpus roots. distinct = by position key (board, side, rights, ep file) merged across workers; non-trivial = the position has at least one of: check, double check, pin, en passant available, castling right for the mover, promotion available, no legal move.".into();
     chk.assumptions = vec![
         "the oracle crate (independent rules written from the FIDE laws) is correct; it is validated in setup against published perft counts and hand-checked special cases without consulting the engine".into(),
         "positions outside the generated set are not covered".into(),
@@ -1103,6 +1123,7 @@ fn summarize(prop: &str, chk: &mut Check, agg: &Agg) {
     match prop {
         "C01" => {
             chk.need("lists compared", agg.c("c01_lists_compared"), 1000);
+            chk.need("pin scenarios", agg.c("pin_scenarios"), 100000);
             for f in ["f_check", "f_double_check", "f_pin", "f_ep_available", "f_ep_illegal_discovery",
                       "f_castling_available", "f_castling_blocked_by_attack", "f_promotion", "f_underpromotion_capture", "f_no_legal_move"] {
                 chk.need(f, agg.c(f), 1);
